@@ -288,6 +288,60 @@ def judge_epics_worker(spec, names, k, res):
             res.violate(V("adapter-influenced-by-unconnected-part", f"EPICS adapter of {n}: records {got['records']}, notified {got['notified']}", site="EpicsIo.setup", extension="epics-io"), case)
 
 
+def command_adapter_isolation(res):
+    """command adapters of UNCONNECTED devices whose classes are related (the shipped CommandAdapter itself, a subclass, a
+    subclass of that, a sibling): what one of them has handled must not change what another one answers - each adapter's
+    replies and interrupt flags in a mixed history equal those it gives when it is the only adapter in the process"""
+    import asyncio
+    from tickit.adapters.specifications.regex_command import RegexCommand
+    from tickit.adapters.tcp import CommandAdapter
+
+    def classes():
+        class A(CommandAdapter):
+            @RegexCommand(rb"X", interrupt=True)
+            async def x(self) -> bytes:
+                return b"a-x"
+
+        class B(A):
+            @RegexCommand(rb"Y")
+            async def y(self) -> bytes:
+                return b"b-y"
+
+        class C(CommandAdapter):
+            @RegexCommand(rb"X")
+            async def x(self) -> bytes:
+                return b"c-x"
+        return {"base": CommandAdapter, "A": A, "B": B, "C": C}
+    msgs = [b"X", b"Y", b"Z"]
+
+    async def ask(ad, m):
+        it, intr = await ad.handle(m)
+        return [r async for r in it], intr
+    loop = asyncio.new_event_loop()
+    try:
+        # what each adapter answers BY ITS OWN DECLARATIONS (the shipped class is process-wide and may have handled messages
+        # before - e.g. a bare CommandAdapter on some other device -, so "alone" cannot be measured here; it is written down)
+        unk = loop.run_until_complete(ask(CommandAdapter(), b"Z"))
+        alone = {"base": [unk, unk, unk], "A": [([b"a-x"], True), unk, unk], "B": [([b"a-x"], True), ([b"b-y"], False), unk], "C": [([b"c-x"], False), unk, unk]}
+        import itertools
+        for order in itertools.permutations(("base", "A", "B", "C")):
+            cl = classes()
+            ads = {k: cl[k]() for k in order}
+            got = {}
+            for k in order:               # k's adapter handles its first messages after all earlier ones have handled theirs
+                got[k] = [loop.run_until_complete(ask(ads[k], m)) for m in msgs]
+            res.case(("command-adapters", order), nontrivial=True)
+            res.count("command-adapter-orders")
+            for k in order:
+                if got[k] != alone[k]:
+                    res.violate(V("adapter-influenced-by-unconnected-part", f"command adapter of class {k} answers {got[k]} to {msgs} after the adapters {list(order[:order.index(k)])} "
+                                  f"of other devices have handled messages; alone it answers {alone[k]}", site="CommandAdapter.handle", extension="command-adapter-classes"),
+                                {"command_adapters": list(order)})
+                    return
+    finally:
+        loop.close()
+
+
 def system_adapter_scenarios():
     P = 4_000_000
     inner = lambda: [dev("in1", {"i": ["external", "x"]}), dev("q")]
@@ -351,6 +405,7 @@ def run(tier, seed, drv):
     res = Result()
     rng = random.Random(seed)
     system_adapter_part(res, drv, seed)
+    command_adapter_isolation(res)
     for bi, scn in enumerate(bases(rng, tier)):
         base_devs = {d["name"] for d in S.devices(scn)}
         for b in scn.get("only_buses", ("sync", "held")):
@@ -416,6 +471,9 @@ def run(tier, seed, drv):
 def replay(payload, drv):
     c = payload["case"]
     res = Result()
+    if c.get("command_adapters"):
+        command_adapter_isolation(res)
+        return {"violations": [v["record"] for v in res.violations], "divergences": []}
     if c.get("epics_io"):
         judge_epics_worker(c["epics_io"], c["epics_io"]["runs"]["ext"], 0, res)
         return {"violations": [v["record"] for v in res.violations], "divergences": []}
